@@ -68,9 +68,26 @@ MenuOn(cols, tag) ==
            \cup {Sort(s) : s \in SortsOn(cols)}
            \cup SliceMenuSmall
 
+\* a calculation that re-creates a column the existing projection dropped (valid above the
+\* projection; the tag still exists below it)
+Recreate(c) == IF Mode \in {"general", "general2"} /\ c.o = "proj"
+               THEN {Calc(t, Fn("neg", <<Ref(x)>>)) : t \in TC \ c.cols, x \in c.cols}
+               ELSE {}
+\* mode "joins": the NEW operation is a partial join (as Relation.join / Join.partial build it, common
+\* columns resolved against the relation it is applied to) with one of four fixed operands
+\* the fifth fixed operand is a deduplication projected onto one column: "deduplicated", yet with duplicate rows
+FixedLeaves == {FLeaf("F1", {"a", "c"}), FLeaf("F2", {"b", "c"}), FLeaf("F3", {"a", "b"}), FLeaf("F4", {"c"}),
+                Un(Proj({"c"}), Un(Dedup, FLeaf("F1", {"a", "c"})))}
+JoinPredsFor(cols, f) == {q \in {PLit(TRUE), Cmp("le", A, C), Cmp("lt", B, C)} : ReqP(q) \subseteq cols \cup Cols(f)}
+PJoinsOn(cols) ==
+    UNION {{[o |-> "pjoin", fixed |-> f, p |-> p, common |-> {x \in cols \cap Cols(f) : IsKey(x)}, res |-> TRUE, lhs |-> side] :
+               side \in BOOLEAN, p \in JoinPredsFor(cols, f)} : f \in FixedLeaves}
+JoinCurMenu == {op \in CalcsOn(TC, "d") \cup {Proj(cs) : cs \in SUBSET TC} \cup {Sel(p) : p \in PredsOn(TC)} \cup {Dedup}
+                        \cup {Sort(s) : s \in SortsOn(TC)} \cup SliceMenuSmall : TRUE}
 Init == /\ phase = "pick"
-        /\ cur \in MenuOn(TC, "c")
-        /\ new \in MenuOn(OpCols(cur, TC), "d")
+        /\ IF Mode = "joins"
+           THEN cur \in JoinCurMenu /\ new \in PJoinsOn(OpCols(cur, TC))
+           ELSE cur \in MenuOn(TC, "c") /\ new \in MenuOn(OpCols(cur, TC), "d") \cup Recreate(cur)
         /\ res = NoneOp
 
 CurNode == Un(cur, LeafL)
@@ -78,7 +95,7 @@ CurNode == Un(cur, LeafL)
 DoCommute == /\ phase = "pick"
              /\ ~IsNoOp(cur, TC)             \* cur is a node of an existing tree
              /\ phase' = "commuted"
-             /\ res' = CommuteG(new, cur, TC, SortFix)
+             /\ res' = IF Mode = "joins" THEN CommuteX(new, CurNode) ELSE CommuteG(new, cur, TC, SortFix)
              /\ UNCHANGED <<cur, new>>
 
 MergeOnce(op, t) ==     \* op.apply(t) inside one iteration engine, with this config's Slice.then
@@ -91,7 +108,7 @@ MergeOnce(op, t) ==     \* op.apply(t) inside one iteration engine, with this co
               IF IsErr(s) THEN s ELSE IF s.some THEN (IF s.op = t.op THEN t ELSE FinishApply(s.op, t.t))
               ELSE Un(b.op, t)
 
-DoMerge == /\ phase = "pick"
+DoMerge == /\ phase = "pick" /\ Mode # "joins"
            /\ phase' = "merged"
            /\ res' = Bind(MergeOnce(cur, LeafL), LAMBDA t : MergeOnce(new, t))
            /\ UNCHANGED <<cur, new>>
